@@ -41,6 +41,7 @@ type randLog struct {
 	keep      bool            // C08: keep every value handed out, the buffer it was written to, and the call site
 	draws     []draw
 	dsa       *RNG // reads made from inside crypto/dsa are served from a stream of their own (see inDSA)
+	lowTags   []byte // C10: the next 4-byte reads (instance tag draws) return these reserved values (< 0x100)
 }
 
 // draw: one read from the random source (kept when randLog.keep is set)
@@ -115,6 +116,10 @@ func (l *randLog) Read(p []byte) (int, error) {
 		copy(p[n-5:], l.r.Bytes(5))
 	} else {
 		copy(p, l.r.Bytes(n))
+	}
+	if n == 4 && len(l.lowTags) > 0 {
+		p[0], p[1], p[2], p[3] = 0, 0, 0, l.lowTags[0]
+		l.lowTags = l.lowTags[1:]
 	}
 	if n == 40 && l.shortPub {
 		// re-draw until the public value g^x has a leading zero byte
